@@ -177,6 +177,24 @@ def main():
                 flat.free()
             for bf in bufs + [avg, mask]:
                 bf.free()
+    # ---- dedicated barycenter battery: collections with several distinct lengths and a window
+    for k in range(600 if tier == "thorough" else 120):
+        ndim = rng.choice([1, 1, 2])
+        n = rng.randint(2, 5)
+        lens = [rng.choice([1, 2, 3, 4, 6, 8, 10, 12]) for _ in range(n)]
+        t_len = rng.choice([3, 5, 7, 8, 10])
+        series = [[rng.randint(-3, 3) for _ in range(l * ndim)] for l in lens]
+        bufs = [Buf(len(x), init=x) for x in series]
+        ptrs = (DP * n)(*[bf.ptr for bf in bufs])
+        lensa = (native.idx_t * n)(*lens)
+        avg = Buf(t_len * ndim, init=[rng.randint(-2, 2) for _ in range(t_len * ndim)])
+        mask = Buf(1, C.c_ubyte, init=[255])
+        s3 = native.settings_from_case({"window": rng.choice([1, 1, 2, 3]), "psi": None, "penalty": rng.choice([0, 1]),
+                                        "inner": rng.choice(["sq", "abs"])})
+        note("dba", {"n": n, "lens": lens, "ndim": ndim, "t": t_len, "window": int(s3.window), "series": series})
+        lib.dtw_dba_ptrs(ptrs, n, lensa, avg.ptr, t_len, mask.ptr, 0, ndim, C.byref(s3))
+        for bf in bufs + [avg, mask]:
+            bf.free()
     pf.write(json.dumps({"done": True, "count": count}) + "\n")
     pf.close()
     return 0
